@@ -226,7 +226,7 @@ theorem decode_encode : ∀ (s : Schema), s.wf = true → ∀ (v : Value) (b res
   | array l e ih =>
     intro hwf v b rest he
     simp only [Schema.wf, Lim.ok_iff, Bool.and_eq_true] at hwf
-    obtain ⟨⟨_, hed, h64⟩, hwe⟩ := hwf
+    obtain ⟨⟨⟨_, hed, h64⟩, hwe⟩, _⟩ := hwf
     simp only [encode] at he
     cases hl : encodeList (encode e) v with
     | none => rw [hl] at he; simp at he
@@ -353,7 +353,7 @@ theorem Schema.documented_eq_of_wf : ∀ (s : Schema), s.wf = true → s.documen
     simp [Schema.documented, Lim.documented_eq l h.1.2]
   | array l e ih =>
     intro h; simp only [Schema.wf, Bool.and_eq_true] at h
-    simp [Schema.documented, Lim.documented_eq l h.1, ih h.2]
+    simp [Schema.documented, Lim.documented_eq l h.1.1, ih h.1.2]
   | tuple a b fs ih =>
     intro h; simp only [Schema.wf, Bool.and_eq_true] at h
     simp [Schema.documented, ih h.2]
@@ -636,7 +636,7 @@ theorem decode_ok_within : ∀ (s : Schema), s.wf = true → ∀ (b : Bytes) (v 
   | array l e ih =>
     intro hwf b v rest h
     simp only [Schema.wf, Bool.and_eq_true] at hwf
-    have ih := ih hwf.2
+    have ih := ih hwf.1.2
     simp only [decode] at h
     cases hr : readHdr b with
     | error e => simp [hr] at h
